@@ -103,19 +103,22 @@ func expandNamedUUID(column *ColumnSchema, value interface{}, namedUUIDs map[str
 		valType = column.TypeObj.Value.Type
 	}
 
-	if valType == TypeUUID {
-		if m, ok := value.(OvsMap); ok {
-			for k, v := range m.GoMap {
-				if newUUID, ok := expandNamedUUIDAtomic(keyType, k, namedUUIDs); ok {
-					m.GoMap[newUUID] = m.GoMap[k]
-					delete(m.GoMap, k)
-					k = newUUID
-				}
-				if newUUID, ok := expandNamedUUIDAtomic(valType, v, namedUUIDs); ok {
-					m.GoMap[k] = newUUID
-				}
-			}
+	if m, ok := value.(OvsMap); ok {
+		// keys and values of a map can both hold named UUIDs
+		if keyType != TypeUUID && valType != TypeUUID {
+			return value
 		}
+		expanded := make(map[interface{}]interface{}, len(m.GoMap))
+		for k, v := range m.GoMap {
+			if newUUID, ok := expandNamedUUIDAtomic(keyType, k, namedUUIDs); ok {
+				k = newUUID
+			}
+			if newUUID, ok := expandNamedUUIDAtomic(valType, v, namedUUIDs); ok {
+				v = newUUID
+			}
+			expanded[k] = v
+		}
+		return OvsMap{GoMap: expanded}
 	} else if keyType == TypeUUID {
 		if ovsSet, ok := value.(OvsSet); ok {
 			for i, s := range ovsSet.GoSet {
